@@ -56,6 +56,7 @@ def run(R, ctx):
     sites = ed.sites(skip=lambda b: b.doc_hidden or 'validate_logs' in b.path)
     per = {}
     counts = {}
+    owners = thread_owners(cg)      # a consumer loop may live in a named function run by the spawned closure
     for (b, bb, n, c) in sites:
         for k_ in c:
             counts[k_] = counts.get(k_, 0) + 1
@@ -64,7 +65,8 @@ def run(R, ctx):
             ordn = per.setdefault((root, n), 0)
             per[(root, n)] = ordn + 1
             key = f"{root}|{n}|discard#{ordn}"
-            allowed = next((why for (fr, cr, why) in ALLOWED_DISCARDS if re.search(fr, root) and re.search(cr, n)), None)
+            allowed = next((why for (fr, cr, why) in ALLOWED_DISCARDS if re.search(cr, n) and
+                            (re.search(fr, root) or any(re.search(fr, o) for o in owners.get(b.path, ())))), None)
             if allowed:
                 R.ok('R19.1', key, f"allowed discard: {allowed}", nontrivial=True)
             else:
